@@ -37,7 +37,7 @@ fn cfg() -> AspCfg {
     AspCfg {
         // one name at two arities: completion, tightness and the reference are all keyed by (name, arity)
         preds: vec![("p".into(), 1), ("p".into(), 2), ("q".into(), 1), ("q".into(), 0), ("r".into(), 2), ("s".into(), 0), ("d".into(), 1)],
-        vars: vec!["X".into(), "Y".into(), "V1".into(), "Z".into()],
+        vars: vec!["X".into(), "Y".into(), "V1".into(), "Z".into(), "Z1".into()],
         syms: vec!["a".into()],
         num_lo: -1,
         num_hi: 3,
